@@ -150,5 +150,67 @@ def run(ctx):
             rz = [s for s in ast.walk(h.stmt) if isinstance(s, ast.Raise) and isinstance(s.exc, ast.Call) and call_name(s.exc) == 'exceptions.ItemNotFound']
             nf = bool(rz)
     ctx.check(nf, 'C07.R5', 'KmipEngine._get_object_type|missing-row-is-not-found', gs, 'NoResultFound -> ItemNotFound', 'a missing row is not reported as ItemNotFound')
+    # ---------------- R6 one spelling of the identifier per request
+    ctx.rule('C07.R6', 'every store query that selects by unique identifier compares the column with the identifier exactly as the handler received it (payload field, ID placeholder or the choke point\'s parameter, through plain copies): the access-checked lookup, the type lookup and the Destroy delete then address the same row')
+    n_f = 0
+    for meth, fn in sorted(m.methods.items()):
+        filts = [c for c in walk_local(fn) if isinstance(c, ast.Call) and isinstance(c.func, ast.Attribute) and c.func.attr in ('filter', 'filter_by', 'get')
+                 and any(isinstance(x, ast.Attribute) and x.attr == 'unique_identifier' for a in c.args for x in ast.walk(a))]
+        # calls that hand the identifier to the lookup helpers are sites of the same rule
+        filts += [c for c in walk_local(fn) if isinstance(c, ast.Call) and is_self_attr(c.func) and c.func.attr in ('_get_object_type', '_get_object_with_access_controls') and c.args]
+        if not filts:
+            continue
+        fg = CFG(fn)
+        frd = ReachingDefs(fg)
+        for c in filts:
+            helper_call = is_self_attr(c.func)
+            p = cmp_parts(c.args[0]) if c.args and not helper_call else None
+            site = m.site(c, fn)
+            if helper_call:
+                p = (None, 'Eq', c.args[0])
+            if not p or p[1] != 'Eq':
+                ctx.fail('C07.R6', 'KmipEngine.%s|identifier-filter-shape' % meth, site, 'a query selects on unique_identifier by something other than equality: %s' % short(c))
+                continue
+            n_f += 1
+            val = p[2] if helper_call or U(p[0]).endswith('unique_identifier') else p[0]
+            node = node_of_expr(fg, c)
+            bad = []
+            seen = set()
+
+            def trace(v, nd, depth=0):
+                if isinstance(v, ast.Name):
+                    for var, dv, dn in frd.reaching(nd, v.id):
+                        if (var, id(dn)) in seen:
+                            continue
+                        seen.add((var, id(dn)))
+                        if dn is None:
+                            continue          # parameter of this method (callers are handlers / the choke point, checked at their own sites)
+                        if isinstance(dv, tuple) and dv and dv[0] == 'iter':
+                            trace(dv[1], dn, depth + 1)
+                        elif isinstance(dv, ast.AST):
+                            trace(dv, dn, depth + 1)
+                        else:
+                            bad.append('%s defined by %s' % (var, dv))
+                elif isinstance(v, ast.Attribute):
+                    root = v
+                    while isinstance(root, ast.Attribute):
+                        root = root.value
+                    if is_self_attr(v, '_id_placeholder') or (isinstance(root, ast.Name) and root.id == 'payload') or v.attr == 'unique_identifier' or v.attr == 'unique_identifiers':
+                        return
+                    bad.append(U(v))
+                elif isinstance(v, ast.IfExp):
+                    trace(v.body, nd, depth + 1)
+                    trace(v.orelse, nd, depth + 1)
+                elif isinstance(v, ast.BoolOp):
+                    for x in v.values:
+                        trace(x, nd, depth + 1)
+                elif isinstance(v, ast.Constant) and v.value is None:
+                    return
+                else:
+                    bad.append(short(v))
+            trace(val, node)
+            ctx.check(not bad, 'C07.R6', 'KmipEngine.%s|identifier-as-received' % meth, site, 'the column is compared with the identifier as received (%s)' % U(val),
+                      'the identifier compared with the column is a transformed value (%s): lookups in the same request that use the original spelling can address a different row or none (a Destroy that reports success without deleting, an object that stays readable)' % '; '.join(bad))
+    ctx.count('identifier_filter_sites', n_f, 3)
     ctx.not_decided += ['SQLite AUTOINCREMENT never reusing a rowid, also across restarts (trusted)', 'identifier behaviour when the process is killed between add() and commit() (C09)']
     ctx.assumptions += ['joined-table inheritance deletes/owns subclass rows through the base row (passive deletes / foreign keys)']
